@@ -55,6 +55,26 @@ func genScanPlan(seed uint64, thorough bool) *Plan {
 		}
 	}
 	bulk(0, size)
+	if g.chance(3) {
+		// names made of glob metacharacters, for patterns with escapes
+		sp := []string{"e[1]", "e*2", "e?3", "e\\4", "e]5", "e^6"}
+		var a []string
+		switch kind {
+		case "hscan":
+			a = []string{"HSET", "coll"}
+			for _, n := range sp {
+				a = append(a, n, "v")
+			}
+		case "sscan":
+			a = append([]string{"SADD", "coll"}, sp...)
+		default:
+			a = []string{"MSET"}
+			for _, n := range sp {
+				a = append(a, n, "v")
+			}
+		}
+		setup = append(setup, cmdItem(a...))
+	}
 	if kind == "scan" && g.chance(2) {
 		// other types in the keyspace for TYPE filtering
 		setup = append(setup, cmdItem("RPUSH", "zl", "a"), cmdItem("HSET", "zh", "f", "v"), cmdItem("SADD", "zs", "m"))
@@ -76,7 +96,7 @@ func genScanPlan(seed uint64, thorough bool) *Plan {
 			opts = append(opts, []string{"COUNT", g.pick("1", "2", "3", "10", "1000")})
 		}
 		if g.chance(3) {
-			opts = append(opts, []string{"MATCH", g.pick("*", "e*", "e1*", "e?", "e[0-4]*", "*7", "nomatch*", "e[^1]*", "", "e[0-9]", "e1[0-9]")})
+			opts = append(opts, []string{"MATCH", g.pick("*", "e*", "e1*", "e?", "e[0-4]*", "*7", "nomatch*", "e[^1]*", "", "e[0-9]", "e1[0-9]", "e\\[*", "e\\**", "e\\?3", "e\\\\*", "e[\\]]*", "e[*?]*", "e\\^6")})
 		}
 		if kind == "scan" && g.chance(4) {
 			opts = append(opts, []string{"TYPE", g.pick("string", "list", "hash", "set", "zset")})
